@@ -43,7 +43,8 @@ RULE = ("a case is (side, list of message specs built by the independent byte bu
         "distinct by SHA-1 of the canonical JSON of the case")
 ASSUMPTIONS = [
   "messages are well-formed OpenFlow 1.0 messages of the direction the receiver handles (switch->controller types for "
-  "of_01.Connection, controller->switch types for OFConnection), version 1 (a HELLO may carry a higher version and a body)",
+  "of_01.Connection, controller->switch types for OFConnection; the symmetric types HELLO, ERROR, ECHO_REQUEST/REPLY, VENDOR in both "
+  "directions), version 1 (a HELLO may carry a higher version and a body)",
   "a well-formed message that POX's decoder itself cannot decode when handed exactly its bytes (a codec defect, property C01) "
   "is outside this property's domain: such cases are counted under 'skipped:undecodable' and not judged",
   "a non-blocking socket returns what is pending capped at the requested size, raises EAGAIN when nothing is pending and returns "
@@ -52,8 +53,9 @@ ASSUMPTIONS = [
   "as the real callers do",
 ]
 EXHAUSTIVE_SCOPE = {
-  "quick": "catalogue of 11 controller-side and 11 switch-side streams (the switch side both pushed into the IOWorker and read through "
-           "IOWorker._do_recv from a non-blocking fake socket): every 1-cut position for streams <= 3000 bytes; for larger "
+  "quick": "catalogue of 11 controller-side and 12 switch-side streams (the switch side pushed into the IOWorker, read through "
+           "IOWorker._do_recv from a non-blocking fake socket, and read that way by a worker that starts in the connecting state and "
+           "builds its OFConnection in the connect handler -- 1-cuts, dribbles, tails and bursts only): every 1-cut position for streams <= 3000 bytes; for larger "
            "streams the cut positions within 9 bytes of a message boundary, within 2 of a multiple of 2048/8192 and every 89th offset; "
            "every 2-cut for streams <= 140 bytes, all pairs of positions within 9 bytes of a boundary for streams <= 3000 bytes, and all "
            "pairs of the offsets -1,0,1,3,4,7,8 around each boundary and of the first two 2048/8192 read boundaries for larger ones; dribble with chunk sizes "
@@ -166,6 +168,22 @@ def expect(data):
 
 # --------------------------------------------------------------------------- receivers
 
+class PeekSock(W.FakeSock):
+  """FakeSock whose recv honours MSG_PEEK (IOWorker._try_connect probes a connecting socket with it)."""
+
+  def recv(self, n, flags=0):
+    import socket as _socket
+    if flags & _socket.MSG_PEEK:
+      if self.closed:
+        raise OSError(9, "Bad file descriptor")
+      if self.inbox:
+        return bytes(self.inbox[:max(1, n)])
+      if self.eof:
+        return b""
+      raise BlockingIOError(11, "Resource temporarily unavailable")
+    return W.FakeSock.recv(self, n, flags)
+
+
 class HandlerBoom(Exception):
   """Raised by a recorder that the case tells to fail on its k-th message (after recording it: the
   raising invocation is the delivery of that message)."""
@@ -213,19 +231,27 @@ class SwRx(object):
   side = "sw"
   READ = 8192
 
-  def __init__(self, raise_at=(), early=b""):
-    SW = _M[2]
-    self.sock = W.FakeSock()
+  def __init__(self, raise_at=(), early=b"", connecting=False):
+    self.sock = PeekSock()
     self.worker = W._make_worker(self.sock)
     self.delivered = []
     self.raise_at = frozenset(raise_at)
     self.received = 0
     self.closed = False
     self.conn = None
+    if connecting:
+      # as pox.datapaths does: the worker starts in the connecting state and the OFConnection is built by its
+      # connect handler, which IOWorker._try_connect runs on the first select wake-up
+      self.worker._connecting = True
+      self.worker.connect_handler = lambda w: self._build()
+      return
     if early:
       # the worker is already registered with its loop and reading before the OFConnection is built on it
       self._early(early)
-    self.conn = SW.OFConnection(self.worker)
+    self._build()
+
+  def _build(self):
+    self.conn = _M[2].OFConnection(self.worker)
     self.conn.set_message_handler(self._rec)
 
   def _early(self, data):
@@ -268,9 +294,9 @@ class SwIoRx(SwRx):
   real IOWorker._do_recv, once per select wake-up while the socket is readable."""
   side = "sw"
 
-  def __init__(self, raise_at=(), early=b""):
+  def __init__(self, raise_at=(), early=b"", connecting=False):
     self.loop = None
-    SwRx.__init__(self, raise_at, early)
+    SwRx.__init__(self, raise_at, early, connecting)
     if self.loop is None:
       self.loop = _StubLoop(self.worker)
 
@@ -395,7 +421,12 @@ def run_case(case):
     raise HarnessError("via=%r is only defined for the switch side" % (via,))
   state = {"bad": False, "k": 0, "burst": 0, "after_raise": 0}
   try:
-    rx = CtlRx(raise_at) if side == "ctl" else (SwIoRx if via == "recv" else SwRx)(raise_at, stream[:pre])
+    connecting = bool(case.get("connecting"))
+    if connecting and (via != "recv" or pre):
+      raise HarnessError("a connecting worker is a via=recv scenario without early data")
+    rx = CtlRx(raise_at) if side == "ctl" else (SwIoRx if via == "recv" else SwRx)(raise_at, stream[:pre], connecting)
+    if connecting:
+      out.label("connecting:first-seg-%s" % (len(segs[0]) if len(segs[0]) <= 8 else "9+"))
   except Exception as e:
     if W_is_harness(e):
       raise
@@ -527,6 +558,9 @@ def catalogue(side):
     ]
   return [
     ("A", [_s(T.HELLO), _s(T.FEATURES_REQUEST), _s(T.SET_CONFIG, f=1), _s(T.ECHO_REQUEST, 5, 1), _s(T.BARRIER_REQUEST)]),
+    # the symmetric types, as a controller sends them (an OFPT_ERROR / HELLO_FAILED included)
+    ("S", [_s(T.HELLO, 4, 1), _s(T.ERROR, 12, 0), _s(T.ECHO_REQUEST, 2), _s(T.ERROR, 0, 1), _s(T.ECHO_REPLY, 2), _s(T.VENDOR, 4, 1),
+           _s(T.ERROR, 64, 2), _s(T.BARRIER_REQUEST)]),
     ("B", [_s(T.GET_CONFIG_REQUEST), _s(T.QUEUE_GET_CONFIG_REQUEST, f=1), _s(T.STATS_REQUEST, 0, 0, R.OFPST_DESC), _s(T.VENDOR, 3),
            _s(T.ECHO_REPLY, 2), _s(T.PORT_MOD, f=1)]),
     ("C", [_s(T.FLOW_MOD, 2, 1), _s(T.PACKET_OUT, 30, 1), _s(T.STATS_REQUEST, 0, 1, R.OFPST_FLOW), _s(T.STATS_REQUEST, 0, 2, R.OFPST_PORT),
@@ -581,6 +615,8 @@ def enum_cut2(tier):
   bound = 140 if tier == "quick" else 420
   for side, extra in _sides():
     for name, specs in catalogue(side):
+      if extra.get("connecting") and tier == "quick":
+        continue                       # connecting workers: 1-cuts, dribbles, tails and bursts (first-segment sizes matter)
       if extra and sum(_lens(specs)) > bound and tier == "quick":
         continue                       # the recv path repeats the exhaustive 2-cuts of the short streams only
       lens = _lens(specs)
@@ -620,7 +656,7 @@ _CHUNKS = [1, 2, 3, 5, 7, 8, 9, 2047, 2048, 2049, 8191, 8192, 8193, 16383, 16384
 def _sides():
   """(side, extra case fields): the switch side is exercised both by pushing segments into the IOWorker and
   through IOWorker._do_recv on a non-blocking socket."""
-  return [("ctl", {}), ("sw", {}), ("sw", {"via": "recv"})]
+  return [("ctl", {}), ("sw", {}), ("sw", {"via": "recv"}), ("sw", {"via": "recv", "connecting": True})]
 
 
 def burst_specs(side, count, variant):
@@ -631,7 +667,7 @@ def burst_specs(side, count, variant):
             _s(T.GET_CONFIG_REPLY, f=1), _s(T.PACKET_IN, 6, 1)]
   else:
     pool = [_s(T.ECHO_REQUEST, 0), _s(T.HELLO), _s(T.BARRIER_REQUEST), _s(T.PORT_MOD, f=1), _s(T.ECHO_REPLY, 3, 1),
-            _s(T.SET_CONFIG, f=1), _s(T.FEATURES_REQUEST)]
+            _s(T.SET_CONFIG, f=1), _s(T.FEATURES_REQUEST), _s(T.ERROR, 8, 1), _s(T.VENDOR, 2)]
   if variant == 0:
     pool = pool[:1]                 # all 8-byte echo requests
   elif variant == 1:
@@ -648,6 +684,8 @@ def enum_raises(tier):
   """The message handler raises on message k (every k), with the rest of the stream already received or
   arriving in the same / a later read."""
   for side, extra in _sides():
+    if extra.get("connecting"):
+      continue
     streams = [(n, sp) for n, sp in catalogue(side) if sum(_lens(sp)) <= 3000]
     streams.append(("burst40", burst_specs(side, 40, 2)))
     for name, specs in streams:
@@ -670,7 +708,7 @@ def enum_raises(tier):
 def enum_early(tier):
   """Switch side: the worker has already read a prefix of the stream when the OFConnection is built on it."""
   for side, extra in _sides():
-    if side != "sw":
+    if side != "sw" or extra.get("connecting"):
       continue
     streams = [(n, sp) for n, sp in catalogue(side) if sum(_lens(sp)) <= 3000]
     streams.append(("burst40", burst_specs(side, 40, 2)))
@@ -804,6 +842,8 @@ def case_strategy(draw, tier):
   case = {"side": side, "msgs": msgs}
   if side == "sw" and draw(st.booleans()):
     case["via"] = "recv"
+    if draw(st.integers(0, 2)) == 0:
+      case["connecting"] = True
   if draw(st.integers(0, 3)) == 0:
     tspec = draw(spec_strategy(side, small=draw(st.booleans())))
     tl = len(R.build(tspec).data)
@@ -812,7 +852,7 @@ def case_strategy(draw, tier):
     total += max(1, min(case["tail"]["keep"], tl - 1))
   if draw(st.integers(0, 3)) == 0:
     case["raise"] = sorted(set(draw(st.lists(st.integers(0, max(0, nm - 1)), min_size=1, max_size=3))))
-  if side == "sw" and draw(st.integers(0, 3)) == 0:
+  if side == "sw" and not case.get("connecting") and draw(st.integers(0, 3)) == 0:
     case["pre"] = draw(st.one_of(st.integers(1, 40), st.integers(1, max(1, total - 1))))
   mode = draw(st.integers(0, 9))
   if mode == 0 and total < 20000:
